@@ -209,7 +209,8 @@ pub fn run(args: &Args, rep: &mut Report) {
         if nfiles == 1 {
             // single PanSN file with 1..3 samples, or one plain file
             let pansn = rng.chance(2, 3);
-            let samples = if pansn { Some((0..rng.usize(1, 3)).map(|s| format!("P{}#{}", s, s % 2)).collect()) } else { None };
+            // not in lexicographic order: the single-file mode only needs contiguous blocks
+            let samples = if pansn { Some((0..rng.usize(1, 3)).map(|s| format!("P{}#{}", [9usize, 10, 2][s], s % 2)).collect()) } else { None };
             files.push(gen_file(&mut rng, "only", samples, true));
         } else {
             for f in 0..nfiles {
